@@ -54,7 +54,7 @@ LEVEL_NOTE = ("Trusted: Coq 8.16.1 kernel incl. vm_compute; standard-library rea
               "domain: points off the boundary); sqrt (distance < tol as squared distance) and multiprocessing.Pool.map (order-preserving map) are modelled, "
               "not verified.")
 # functions of the numerical core this property rests on that are also tied by the translator (tie theorems: Proofs/GenTie*.v, restated in Props/)
-TRANSLATED = ["linalg.is_left", "linalg.wn_poly", "linalg.convex_hull", "_voxelize.is_point_inside_voxel", "_voxelize.find_inouts_st"]
+TRANSLATED = ["linalg.is_left", "linalg.wn_poly", "linalg.convex_hull", "_voxelize.is_point_inside_voxel", "_voxelize.find_inouts_st", "_operations.find_ctrlpts_curve", "_operations.find_ctrlpts_surface", "_voxelize.generate_voxel_grid", "linalg.vector_generate"]
 TECHNIQUE = "machine-checked proof in Coq (ring/field/nsatz/lra over R) on a Gallina model + vm_compute correspondence with geomdl + exact Fraction oracles"
 
 
